@@ -297,6 +297,30 @@ def _introspect_fun(
     return fis
 
 
+def visit_inner_scope(visitor: ast.NodeVisitor, node: Any, local_names: Set[Any]) -> None:
+    """
+    Visits a lambda or a function defined inside the analysed function. Its parameters are local names inside it
+    and only there: 'lambda row: row.x' must not look for a module called row, and a parameter called like a
+    function of the module does not hide that function in the rest of the enclosing body.
+    """
+    a = node.args
+    # Evaluated in the enclosing scope:
+    outer: List[Any] = list(a.defaults) + [d for d in a.kw_defaults if d is not None]
+    outer += list(getattr(node, "decorator_list", []))
+    for n in outer:
+        visitor.visit(n)
+    names = [x.arg for x in list(getattr(a, "posonlyargs", [])) + list(a.args) + list(a.kwonlyargs)]
+    names += [x.arg for x in (a.vararg, a.kwarg) if x is not None]
+    added = set(LocalVar(n) for n in names) - local_names
+    local_names |= added
+    try:
+        body = node.body if isinstance(node.body, list) else [node.body]
+        for n in body:
+            visitor.visit(n)
+    finally:
+        local_names -= added
+
+
 class IntroVisitor(ast.NodeVisitor):
     def __init__(
         self,
@@ -319,6 +343,12 @@ class IntroVisitor(ast.NodeVisitor):
         self._store_names: Set[LocalVar] = {current_fun_name}
         self.inters: List[FunctionInteractions] = []
         self.load_paths: List[DDSPath] = []
+
+    def visit_Lambda(self, node: ast.Lambda) -> Any:
+        visit_inner_scope(self, node, self._function_var_names)
+
+    def visit_FunctionDef(self, node: ast.FunctionDef) -> Any:
+        visit_inner_scope(self, node, self._function_var_names)
 
     def visit_Call(self, node: ast.Call) -> Any:
         # _logger.debug(f"visit_Call: {node} {dir(node)} {pformat(node)}")
@@ -463,6 +493,12 @@ class ExternalVarsVisitor(ast.NodeVisitor):
         # All the dependencies that are encountered but do not lead to an external dep.
         self._rejected_paths: Set[LocalDepPath] = set()
 
+    def visit_Lambda(self, node: ast.Lambda) -> Any:
+        visit_inner_scope(self, node, self._local_vars)
+
+    def visit_FunctionDef(self, node: ast.FunctionDef) -> Any:
+        visit_inner_scope(self, node, self._local_vars)
+
     def visit_Name(self, node: ast.Name, debug: bool = False) -> Any:
         local_dep_path = LocalDepPath(PurePosixPath(node.id))
         if debug:
@@ -569,12 +605,6 @@ class LocalVarsVisitor(ast.NodeVisitor):
         # _logger.debug(f"visit_vars: {node.id} {node.ctx}")
         if isinstance(node.ctx, ast.Store):
             self.vars.add(node.id)
-        self.generic_visit(node)
-
-    def visit_arg(self, node: ast.arg) -> Any:
-        # The parameters of a lambda or of a nested function are local names too. Without this they are looked
-        # up as modules on sys.path (a file called row.py changes the signature of 'lambda row: ...').
-        self.vars.add(node.arg)
         self.generic_visit(node)
 
     def visit_ExceptHandler(self, node: ast.ExceptHandler) -> Any:
